@@ -79,6 +79,7 @@ def linear_population(rng, thorough=False):
         yield 'ComponentProjection/list/' + n, lambda sp=sp: odl.ComponentProjection(sp ** 3, [2, 0])
         yield 'ComponentProjection/list-with-repeated-component/' + n, lambda sp=sp: odl.ComponentProjection(sp ** 3, [0, 0, 2])
         yield 'ComponentProjection.adjoint/list-with-repeated-component/' + n, lambda sp=sp: odl.ComponentProjection(sp ** 3, [1, 2, 1]).adjoint
+        yield 'ComponentProjection/list-with-component-repeated-through-a-negative-index/' + n, lambda sp=sp: odl.ComponentProjection(sp ** 3, [-1, 2, 0])
         yield 'ComponentProjection/pspace-array-weighted/' + n, lambda psw=psw: odl.ComponentProjection(psw, 1)
         yield 'ComponentProjection.adjoint/' + n, lambda ps=ps: odl.ComponentProjection(ps, 1).adjoint
         # the index kinds an Integral / slice / list contract admits, on weighted product spaces
